@@ -85,6 +85,29 @@ Theorem C02_external_checksum_refuted :
 Proof. exists checksum_witness. eexists. split; [reflexivity|]. split; reflexivity. Qed.
 Print Assumptions C02_external_checksum_refuted.
 
+(* The hypothesis on nested graphs is satisfiable, which gives an unconditional corollary: every
+   attribute whose graph values (if any) are empty graphs round-trips, with the real deser_graph/ser_graph. *)
+Definition only_empty (g : GraphP) : bool :=
+  match g with mkGraphP None None [] [] [] [] [] [] [] => true | _ => false end.
+Lemma only_empty_roundtrip scopes :
+  forall g, only_empty g = true ->
+  exists ig, deser_graph 1 scopes g = Ok ig /\ exists g', ser_graph 1 None ig = Ok g' /\ norm_graph g' = norm_graph g.
+Proof.
+  intros g H. destruct g as [n d i t nd o v q m].
+  destruct n, d, i, t, nd, o, v, q, m; try discriminate.
+  eexists. split; [reflexivity|]. eexists. split; reflexivity.
+Qed.
+Theorem C02_attrs_flat :
+  forall scopes allow_ref (a : AttrP GraphP), wf_attr allow_ref only_empty a = true ->
+  exists ia, deser_attr (deser_graph 1) empty_graph scopes a = Ok ia /\ exists a',
+    ser_attr (ser_graph 1 None) ia = Ok a' /\ norm_attr norm_graph empty_graph a' = norm_attr norm_graph empty_graph a.
+Proof.
+  intros scopes allow_ref a H.
+  exact (C02_attrs_all_kinds (deser_graph 1) (ser_graph 1 None) only_empty scopes
+           (only_empty_roundtrip scopes) eq_refl allow_ref a H).
+Qed.
+Print Assumptions C02_attrs_flat.
+
 (* Stage 5.  Nodes inside a scope stack: inputs are resolved through the scoped name tables (innermost
    first) to values whose name is the key (invariant scope_ok), optional inputs "" stay empty, trailing
    unnamed outputs are trimmed, the alias domain "ai.onnx" becomes "", attributes keep order, doc strings
